@@ -50,6 +50,7 @@ class FnSpec:
         self.attrs = []       # `//@ attr <text>`: attribute lines put before the function (e.g. no termination claim for a retry loop)
         self.truncate_after = None
         self.tail_expr = None
+        self.skip_before = None   # `//@ skip_before /re/` (rule R13, suffix extraction): the body before the first match is dropped
 
     def display(self):
         return self.label or self.as_name or self.name
@@ -214,6 +215,8 @@ class Unit:
                         cur.vis = arg
                     elif word == 'attr':
                         cur.attrs.append(arg)
+                    elif word == 'skip_before':
+                        cur.skip_before = arg.strip()
                     elif word == 'truncate_after':
                         cur.truncate_after = arg.strip()
                     elif word == 'tail':
@@ -407,6 +410,20 @@ def assemble(unit, index, expanded_name='expanded.rs', probe=None, lenient=False
         text = index.src[f.sig_start:f.body_end]
         try:
             text = rw.strip_comments_and_attrs(text, fired)
+            if fs.skip_before:
+                # R13 (suffix extraction): the body before the first match of the declared pattern is dropped; the variables live at
+                # that point become parameters through a declared signature substitution, and what the dropped prefix establishes is
+                # stated as `requires` (proved for the prefix in another unit where the unit says so, assumed otherwise)
+                pat = fs.skip_before
+                if pat.startswith('/') and pat.endswith('/'):
+                    pat = pat[1:-1]
+                ob0 = _split_sig_body(text)
+                mt = re.search(pat, text[ob0:], re.S)
+                if not mt:
+                    raise ExtractError('%s: skip_before pattern not found (lost anchor)' % fs.display())
+                dropped = text[ob0 + 1:ob0 + mt.start()]
+                text = text[:ob0 + 1] + '\n' * dropped.count('\n') + text[ob0 + mt.start():]
+                fired['R13'] = fired.get('R13', 0) + 1
             if fs.truncate_after:
                 # R12 (prefix extraction): the body is cut after the first match of the declared pattern; what follows in the
                 # real function is NOT under contract; the declared tail expression returns the state reached so far
